@@ -102,7 +102,7 @@ def validate_traces(traces, spec="Trace_Ledger.tla", cfg=None, shards=None):
     return verdicts, states, transitions
 
 
-_COV_ACTION = re.compile(r"^<(\w+) line \d+, col \d+ to line \d+, col \d+ of module (\w+)>: (\d+):(\d+)")
+_COV_ACTION = re.compile(r"^<(\w+) line \d+, col \d+ to line \d+, col \d+ of module (\w+)(?: \([\d ]+\))?>: (\d+):(\d+)")
 
 
 def parse_action_coverage(out):
